@@ -459,9 +459,13 @@ func (fg *FG) evalModEntry(x *SExpr, env *Env, src string) []modEntry {
 	// elems(s) | elems(s, lo, hi) | *p | x.f | x[i]
 	if x.Kind == SCall && x.A.Kind == SIdent && x.A.Name == "elems" {
 		s := env.tr(x.Args[0])
+		if mt, isMap := types.Unalias(s.Ty).Underlying().(*types.Map); isMap {
+			mv, _ := fg.mapFamilies(mt)
+			return []modEntry{{loc: &Loc{Kind: LCell, Heap: mv, Ref: s.T}, src: src}}
+		}
 		sl, ok := types.Unalias(s.Ty).Underlying().(*types.Slice)
 		if !ok {
-			fg.fail("modifies elems(%s): not a slice", x.Args[0])
+			fg.fail("modifies elems(%s): not a slice or map", x.Args[0])
 		}
 		fam, srt := fg.elemFamily(sl.Elem())
 		fg.heapSort[fam] = srt
@@ -571,6 +575,19 @@ func (fg *FG) applyModifies(st *State, c *Contract, env *Env, in ssa.Instruction
 
 func (fg *FG) havocEntry(st *State, m modEntry) {
 	l := m.loc
+	if strings.HasPrefix(l.Heap, "MV_") {
+		// whole map contents: values, presence, cardinality
+		for _, fam := range []string{l.Heap, mapPresence(l.Heap), "ML_" + l.Heap[3:]} {
+			h := fg.heap(st, fam, "")
+			_, inner := splitArraySort(fg.heapSort[fam])
+			nv := fg.fresh("hm", inner)
+			fg.setHeap(st, fam, fmt.Sprintf("(store %s %s %s)", h, l.Ref, nv))
+			if fam[:3] == "ML_" {
+				fg.assume(fmt.Sprintf("(>= %s 0)", nv))
+			}
+		}
+		return
+	}
 	if m.elems {
 		h := fg.heap(st, l.Heap, "")
 		_, inner := splitArraySort(fg.heapSort[l.Heap])
